@@ -23,7 +23,7 @@ TRIGGERS = {
 }
 PRIOS = [Priority.NOW, Priority.CREW, Priority.DOING, Priority.TODO]
 EVENTS = ['COMPLETE oldest', 'COMPLETE newest', 'TICK', 'TICK new-data', 'SUBMIT now', 'SUBMIT crew', 'SUBMIT doing', 'SUBMIT todo', 'SUBMIT todo git-fails',
-          'RESET', 'WORK queue', 'WORK doing', 'FOREIGN', 'SETTLE', 'WORK busy']
+          'RESET', 'WORK queue', 'WORK doing', 'FOREIGN', 'SETTLE', 'WORK busy', 'SUBMIT-API todo', 'SUBMIT-API crew', 'VERIFY ok', 'VERIFY fail']
 
 
 def cond(p, level):
@@ -65,6 +65,7 @@ def hist_body(prop, start, k, sel):
         common_monitors.seen = 0
         arch_from = None
         accepted = []  # priorities of accepted submissions not yet served by an update
+        pending_api = []  # API submissions whose compliance run has not ended
         n_updates = 0
         if start == 'boot':
             rt.note('BOOT')
@@ -100,7 +101,7 @@ def hist_body(prop, start, k, sel):
                     farm.dispatch()
                 except transitions.MachineError as err:
                     rt.fail('c10:dispatch-raises', f'farm.dispatch let {err!r} escape')
-            elif name.startswith('SUBMIT'):
+            elif name.startswith('SUBMIT') and not name.startswith('SUBMIT-API'):
                 p = {'now': Priority.NOW, 'crew': Priority.CREW, 'doing': Priority.DOING, 'todo': Priority.TODO}[name.split()[1]]
                 ok = not name.endswith('git-fails')
                 rt.note(name)
@@ -115,6 +116,29 @@ def hist_body(prop, start, k, sel):
                     rt.require(ok, 'c12:accepted-after-git-failure', 'failed preparation reported as success')
                     accepted.append(p)
                 rt.require(req.finished, 'c10:request-not-answered', 'submit request left without an answer')
+            elif name.startswith('SUBMIT-API'):
+                p = {'crew': Priority.CREW, 'todo': Priority.TODO}[name.split()[1]]
+                rt.note(name)
+                prio_before = f.priority
+                _r, req = w.submit_api(p.value, True)
+                if not active_before:
+                    rt.nontrivial()
+                    rt.require(f.priority == prio_before and len(w.spawned) == before[-1], 'c12:accepted-while-inactive', f'API submission accepted in {before[0]}/{before[1]}')
+                    rt.require(req.finished or isinstance(_r, bytes), 'c10:request-not-answered', 'refused API submission left without an answer')
+                else:
+                    pending_api.append((p, req))
+            elif name.startswith('VERIFY'):
+                if not w.spawned:
+                    return
+                rt.note(name)
+                p, req = pending_api.pop(0)
+                w.verify(name.endswith('ok'))
+                text = b''.join(req.out)
+                rt.require(req.finished, 'c10:request-not-answered', 'API submit request left without an answer')
+                if name.endswith('ok') and b'Submission successful' in text:
+                    accepted.append(p)
+                elif name.endswith('ok'):
+                    rt.fail('c12:verified-submission-refused', f'compliance succeeded but the submission was answered {text[-120:]!r}')
             elif name == 'RESET':
                 rt.note(name)
                 r = api.cmd_reset(['false'])
@@ -176,6 +200,11 @@ def hist_body(prop, start, k, sel):
     # ---- drain: every poller condition holds, every background job completes ----
     with rt.island():
         rt.note('DRAIN')
+        while w.spawned:
+            p_, req_ = pending_api.pop(0)
+            w.verify(True)
+            if b'Submission successful' in b''.join(req_.out):
+                accepted.append(p_)
         w.set_level(frozenset())
         for _ in range(40):
             if not w.threads.pending:
